@@ -63,9 +63,9 @@ def make_case(tier, seed, index):
     return {"kind": "generated", "spec": spec, "seed": [seed, 20, index, 1]}
 
 
-def series_of(pd_, pop, output):
+def series_of(pd_, pop, output, result="res"):
     for s in pd_.series:
-        if s.pop == pop and s.output == output:
+        if s.pop == pop and s.output == output and (s.result == result or result is None):
             return np.array(s.vals, dtype=float, copy=True)
     return None
 
@@ -118,8 +118,27 @@ def run_case(case):
     def key_of(o):
         return list(o.keys())[0] if isinstance(o, dict) else o
 
-    def call(outputs, psel, **kw):
-        return at.PlotData(result, outputs=list(outputs), pops=list(psel), **kw)
+    # a second result of the same project (other population sizes and rates): what is reported for one result must not depend
+    # on which other results are part of the same request
+    result2 = None
+    try:
+        import sciris as sc
+
+        ps2 = sc.dcp(P.parsets[0])
+        for par in list(ps2.pars.values()):
+            for j, pop_ in enumerate(par.pops):
+                if par.name in ords:
+                    par.y_factor[pop_] = par.y_factor[pop_] * [0.4, 2.5, 1.3][j % 3]
+                elif par.name in [p["name"] for p in spec["pars"] if p["format"] in ("rate", "probability", "number") and not p["timed"]]:
+                    par.y_factor[pop_] = par.y_factor[pop_] * [1.8, 0.5][j % 2]
+        result2 = P.run_sim(ps2, result_name="res2")
+        result2.name = "res2"
+        R.count("second_results_available")
+    except Exception as e:
+        R.count("second_result_not_available[%s]" % type(e).__name__)
+
+    def call(outputs, psel, results=None, **kw):
+        return at.PlotData(result if results is None else results, outputs=list(outputs), pops=list(psel), **kw)
 
     # ---- 1. independence of the other requested outputs / populations / order -----------------------------
     mixed = 0
@@ -176,8 +195,12 @@ def run_case(case):
             pk = int(rng.integers(0, len(popsel)))
             psel = [popsel[int(i)] for i in rng.choice(len(popsel), size=pk, replace=False) if key_of(popsel[int(i)]) != key_of(tpop)] + [tpop]
             psel = [psel[int(i)] for i in rng.permutation(len(psel))]
+            several = None
+            if result2 is not None and rng.random() < 0.4:
+                several = [result, result2] if rng.random() < 0.5 else [result2, result]
+                R.count("paired_calls_with_a_second_result_in_the_request")
             try:
-                pd2 = treat(call(outs, psel, **kw))
+                pd2 = treat(call(outs, psel, results=several, **kw))
             except Exception as e:
                 R.count("plotdata_variant_call_failed[%s]" % type(e).__name__)
                 continue
@@ -195,6 +218,8 @@ def run_case(case):
                 tk = "aggregated-output" if isinstance(target, dict) and not isinstance(list(target.values())[0], str) else ("formula" if isinstance(target, dict) else "plain")
                 pkind = "aggregated-pop" if isinstance(tpop, dict) else "single-pop"
                 tt = "t_bins" if "t_bins" in kw else (post[0] if post is not None else "no-time-treatment")
+                if several is not None:
+                    tt += ",several-results"
                 R.bad("value-independent-of-other-requests", "C20:value-depends-on-other-requests[%s,%s,%s,%s]" % (tk, pkind, "explicit" if (set(kw) - {"t_bins", "time_aggregation"}) else "default", tt), {"time_treatment": None if post is None else [post[0], [float(x) for x in post[1]]] + list(post[2:]), "target": target, "pop": tpop, "alone": None if refv is None else refv[:4].tolist(), "in_call": None if v2 is None else v2[:4].tolist(), "outputs": outs, "pops": psel, "kwargs": kw})
             else:
                 R.ok("value-independent-of-other-requests")
